@@ -413,6 +413,7 @@ func runC01(c *Ctx) {
 	cases = append(cases, c01MapStaticFamily(rand.New(rand.NewSource(c.Seed*104729+23)), c.Thorough)...)
 	cases = append(cases, c01AliasTwiceFamily(rand.New(rand.NewSource(c.Seed*104729+29)), c.Thorough)...)
 	cases = append(cases, c01UntypedMapFamily(rand.New(rand.NewSource(c.Seed*104729+31)), c.Thorough)...)
+	cases = append(cases, c01NullCtlFamily(rand.New(rand.NewSource(c.Seed*104729+37)), c.Thorough)...)
 	optsList := []GenOpts{
 		{},
 		{MaxDepth: 3, MaxCalls: 3},
@@ -478,7 +479,7 @@ func runC01(c *Ctx) {
 			r.hist("final:" + final)
 			if strings.HasPrefix(cs.name, "family/narrow-") || strings.HasPrefix(cs.name, "family/disabled-same-stage") ||
 				strings.HasPrefix(cs.name, "family/map-") || strings.HasPrefix(cs.name, "family/alias-twice") ||
-				strings.HasPrefix(cs.name, "family/untyped-map") {
+				strings.HasPrefix(cs.name, "family/untyped-map") || strings.HasPrefix(cs.name, "family/null-control") {
 				cls := strings.Join(strings.SplitN(strings.TrimPrefix(cs.name, "family/"), "-", 3)[:2], "-")
 				r.hist("family:" + cls + ":" + final)
 				if final != "complete" && si == cs.specs[0] {
